@@ -471,6 +471,13 @@ func c05Gen(r *vu.RNG, n int, emit func(string)) {
 					}
 					ops = append(ops, "Q:"+vu.Hex(k)+":"+vu.Hex(w))
 				}
+				if ok && len(v) > 1 && r.Chance(1, 3) { // a strict prefix / an extension of the present value
+					if r.Chance(1, 2) {
+						ops = append(ops, "Q:"+vu.Hex(k)+":"+vu.Hex(v[:len(v)-1-r.Intn(len(v)-1)]))
+					} else {
+						ops = append(ops, "Q:"+vu.Hex(k)+":"+vu.Hex(append(append([]byte{}, v...), byte(r.Intn(2)))))
+					}
+				}
 				if r.Chance(1, 2) { // absent neighbour with the value of the present key
 					ops = append(ops, "Q:"+vu.Hex(c05neighbour(r, k))+":"+vu.Hex(v))
 				}
